@@ -11,6 +11,7 @@ use crate::gen::labels::label_expr;
 use crate::props::c02::{gen_time, gen_window_len, library_stream};
 use crate::props::c03::{capped, Capped};
 use crate::props::common::{date_end, date_start, first_change_after, gen_case, Scan};
+use crate::model;
 use crate::runner::{guard, Case, SubCheck};
 
 fn gen_instant(ch: &mut Choices) -> NaiveDateTime {
@@ -56,6 +57,7 @@ fn bounds(ch: &mut Choices, case: &mut Case) -> Result<(), String> {
     let oh: &OpeningHours = &g.oh;
     let text = &g.text;
     let mut nontrivial = false;
+    let decided = model::undecided(&g.ast).is_none() && model::undecided_at(&g.ast, 1900).is_none() && model::undecided_at(&g.ast, 1899).is_none();
     for _ in 0..3 {
         let t = gen_instant(ch);
         case.key = format!("{text}  t={t}");
@@ -92,6 +94,32 @@ fn bounds(ch: &mut Choices, case: &mut Case) -> Result<(), String> {
                 }
                 if t >= date_end() && got.is_some() {
                     return Err(format!("`{text}`: next_change({t}) = {got:?} from an instant beyond the supported range"));
+                }
+                if t < date_start() && decided {
+                    // independent oracle: the first non-closed minute of the first weeks of 1900
+                    // according to the documented semantics (reference model, not schedule_at)
+                    let mut first_open = None;
+                    'days: for k in 0..46 {
+                        let d = date_start().date() + Duration::days(k);
+                        let (minutes, _) = model::eval_day(&g.ast, d, &g.holidays.model);
+                        for (m, kind) in minutes.iter().enumerate() {
+                            if *kind != model::K::C {
+                                first_open = Some(d.and_hms_opt(m as u32 / 60, m as u32 % 60, 0).unwrap());
+                                break 'days;
+                            }
+                        }
+                    }
+                    let horizon = date_start() + Duration::days(46);
+                    match first_open {
+                        Some(e) if got != Some(e) => {
+                            return Err(format!("`{text}`: next_change({t}) = {got:?}, but by the documented semantics the expression is first not closed at {e}"));
+                        }
+                        None if got.is_some_and(|x| x < horizon) => {
+                            return Err(format!("`{text}`: next_change({t}) = {got:?}, but by the documented semantics the expression stays closed until {horizon}"));
+                        }
+                        Some(_) => case.label("model_first_opening_in_1900"),
+                        None => {}
+                    }
                 }
                 if t < date_start() || t >= date_end() - Duration::days(6000) {
                     // exact oracle: scan (from 1900-01-01 when t lies before it)
@@ -204,7 +232,7 @@ pub fn property() -> Property {
         id: "C08",
         subs: vec![SubCheck {
             name: "bounds",
-            rule: "generated expressions whose years are drawn next to 1900 or 9999 (selectors straddling the bounds, spans spilling past 9999-12-31) x 3 instants concentrated within 2 days of 1900-01-01 and 10000-01-01, exactly on / one second or minute next to them, far outside (years -262000..262000) and inside: state/schedule closed outside; next_change never before 1900, never >= 10000, > t, none beyond the range, and compared exactly with a forward scan when t < 1900 (first non-closed instant from 1900-01-01T00:00) or t within the last 6 000 days; iter_range / iter_from intervals inside [from, min(to, 10000-01-01)], gap-free, closed outside the range; non-trivial = an exact next_change comparison from before 1900 or near 9999 was made",
+            rule: "generated expressions whose years are drawn next to 1900 or 9999 (selectors straddling the bounds, spans spilling past 9999-12-31) x 3 instants concentrated within 2 days of 1900-01-01 and 10000-01-01, exactly on / one second or minute next to them, far outside (years -262000..262000) and inside: state/schedule closed outside; next_change never before 1900, never >= 10000, > t, none beyond the range, and compared exactly with a forward scan when t < 1900 (first non-closed instant from 1900-01-01T00:00, also computed with the reference model of the documented semantics over the first 46 days of 1900 when the expression is in the model's decided domain) or t within the last 6 000 days; iter_range / iter_from intervals inside [from, min(to, 10000-01-01)], gap-free, closed outside the range; non-trivial = an exact next_change comparison from before 1900 or near 9999 was made",
             f: bounds,
             text_f: None,
             cases_quick: 8_000,
@@ -213,7 +241,7 @@ pub fn property() -> Property {
         }],
         extra: None,
         assumptions: vec![
-            "schedule_at is the pointwise oracle for the exact next_change comparisons",
+            "schedule_at is the pointwise oracle for the exact next_change comparisons; from before 1900 the reference model of C01 is a second, independent oracle for the first opening",
             "calls that need more than 60 000 day schedules are skipped as too_far",
         ],
     }
